@@ -2011,3 +2011,177 @@ func TestVerifC13(t *testing.T) {
 		apps.stop()
 	}
 }
+
+// ---------------------------------------------------------------- second stream: the decision service as deployed
+
+// TestVerifC13Deployed sends one logical request (method, scheme, host, path, query) to a decision
+// service directly and — described by X-Forwarded-Method/-Proto/-Host/-Uri on a carrier request from a
+// trusted proxy, the way an API gateway uses the decision service — to a decision service with
+// trusted_proxies; the same rule echoes method and URL parts in both.
+
+const c13TPConfig = `
+mechanisms:
+  authenticators:
+    - id: anon
+      type: anonymous
+  finalizers:
+    - id: hdr
+      type: header
+      config:
+        headers:
+          X-V: '{{ dict "method" .Request.Method "scheme" .Request.URL.Scheme "host" .Request.URL.Host "rawpath" .Request.URL.RawPath "query" .Request.URL.RawQuery | toJson | b64enc }}'
+`
+
+const c13TPRules = `
+version: "1alpha4"
+name: c13tp
+rules:
+  - id: t
+    allow_encoded_slashes: no_decode
+    match:
+      routes:
+        - path: /t/**
+    forward_to:
+      host: 127.0.0.1:1
+    execute:
+      - authenticator: anon
+      - finalizer: hdr
+`
+
+var c13TPQueries = []string{
+	"", "", "x=1", "a=1&b=2", "b=2&a=1", "q=a%20b", "q=a+b", "a=1;b=2", "empty=", "x", "a=%41", "a=A", "a=1&a=2", "a=2&a=1",
+	"k=%2F", "k=/", "a=1&&b=2", "=v", "a==b", "%zz=1", "a=%zz&b=1", "b=1&a=%zz", "a=1&b=2&c=3", "c=3&a=1", "a%20b=1", "a+b=1",
+	"a=~", "a=%7E", "z=%C3%A4", "a=1&", "&a=1",
+}
+
+type c13TPObs struct {
+	Status  int    `json:"status"`
+	Method  string `json:"method"`
+	Scheme  string `json:"scheme"`
+	Host    string `json:"host"`
+	RawPath string `json:"rawpath"`
+	Query   string `json:"query"`
+	Err     string `json:"err,omitempty"`
+}
+
+func (o c13TPObs) coq() string {
+	return vf.CoqApp("tob", vf.CoqZ(int64(o.Status)), vf.CoqStr(o.Method), vf.CoqStr(o.Scheme), vf.CoqStr(o.Host), vf.CoqStr(o.RawPath),
+		vf.CoqStr(o.Query))
+}
+
+func c13TPObserve(app *assembly.HandlerApp, raw, peer string, tls bool) c13TPObs {
+	req, err := assembly.ParseRaw(raw, peer+":4711", tls)
+	if err != nil {
+		return c13TPObs{Status: -1, Err: "parse: " + err.Error()}
+	}
+
+	rec := app.Serve(req)
+	o := c13TPObs{Status: statusOf(rec.Code)}
+
+	if o.Status != 0 {
+		return o
+	}
+
+	b, err := base64.StdEncoding.DecodeString(rec.Header().Get("X-V"))
+	if err != nil {
+		o.Err = err.Error()
+
+		return o
+	}
+
+	var v struct{ Method, Scheme, Host, Rawpath, Query string }
+	if err = json.Unmarshal(b, &v); err != nil {
+		o.Err = err.Error()
+
+		return o
+	}
+
+	o.Method, o.Scheme, o.Host, o.RawPath, o.Query = v.Method, v.Scheme, v.Host, v.Rawpath, v.Query
+
+	return o
+}
+
+func TestVerifC13Deployed(t *testing.T) {
+	w := vf.NewWriter()
+	defer w.Close()
+
+	direct, err := assembly.StartHandler(assembly.Decision, c13TPConfig, c13TPRules)
+	if err != nil {
+		t.Fatal(err)
+	}
+	defer direct.Stop()
+
+	behind, err := assembly.StartHandler(assembly.Decision, "serve:\n  decision:\n    trusted_proxies: [\"10.0.0.0/8\"]\n"+c13TPConfig, c13TPRules)
+	if err != nil {
+		t.Fatal(err)
+	}
+	defer behind.Stop()
+
+	root := vf.NewRand(vf.Seed())
+	n := vf.N(300)
+
+	type tpCase struct {
+		Req c13Req `json:"req"`
+	}
+
+	corpus := []c13Req{
+		{Method: "GET", TLS: true, Host: "a.example.com", Path: "/t/abc", Query: "b=2&a=1", Peer: "10.0.0.1"}, // C13-F10
+		{Method: "GET", TLS: true, Host: "a.example.com", Path: "/t/abc", Query: "q=a%20b", Peer: "10.0.0.1"},
+		{Method: "GET", TLS: true, Host: "a.example.com", Path: "/t/abc", Query: "a=1;b=2", Peer: "10.0.0.1"},
+		{Method: "POST", TLS: false, Host: "A.Example.COM", Path: "/t/a%2Fb/../c", Query: "a=1&b=2", Peer: "10.0.0.1"},
+		{Method: "GET", TLS: false, Host: "a.example.com", Path: "/t/abc", Query: "", Peer: "10.0.0.1"},
+	}
+
+	for i := 0; i < n+len(corpus); i++ {
+		if !vf.Want(i) {
+			continue
+		}
+
+		var q c13Req
+		if i < len(corpus) {
+			q = corpus[i]
+		} else {
+			r := root.Fork(uint64(700000 + i))
+			q = c13Req{Method: vf.Pick(r, c13Methods), TLS: r.Chance(50), Host: vf.Pick(r, c13Hosts), Peer: "10.0.0.1",
+				Query: vf.Pick(r, c13TPQueries)}
+
+			parts := make([]string, r.Range(1, 3))
+			for k := range parts {
+				parts[k] = vf.Pick(r, c13Segs)
+			}
+
+			q.Path = "/t/" + strings.Join(parts, "/")
+		}
+
+		target := q.Path
+		if q.Query != "" {
+			target += "?" + q.Query
+		}
+
+		scheme := "http"
+		if q.TLS {
+			scheme = "https"
+		}
+
+		od := c13TPObserve(direct, q.Method+" "+target+" HTTP/1.1\r\nHost: "+q.Host+"\r\n\r\n", q.Peer, q.TLS)
+		if od.Status == -1 {
+			continue // net/http refuses the request line: not a case
+		}
+
+		ot := c13TPObserve(behind, "GET /decisions HTTP/1.1\r\nHost: heimdall.internal\r\nX-Forwarded-Method: "+q.Method+
+			"\r\nX-Forwarded-Proto: "+scheme+"\r\nX-Forwarded-Host: "+q.Host+"\r\nX-Forwarded-Uri: "+target+"\r\n\r\n", q.Peer, false)
+
+		lreq := vf.CoqApp("lrq", vf.CoqStr(q.Method), vf.CoqBool(q.TLS), vf.CoqStr(q.Host), vf.CoqStr(q.Path), vf.CoqStr(q.Query),
+			"[]", vf.CoqStr(""), vf.CoqStr(q.Peer), "PackRaw")
+
+		tags := []string{"tp:query=" + q.Query, fmt.Sprintf("tp:status=%d/%d", od.Status, ot.Status)}
+		if od.Query == ot.Query {
+			tags = append(tags, "tp:query-agrees")
+		} else {
+			tags = append(tags, "tp:query-differs")
+		}
+
+		w.Put(vf.Obs{I: i, Stream: "deployed", In: tpCase{q}, Out: map[string]c13TPObs{"direct": od, "trusted_proxy": ot},
+			Coq: vf.CoqApp("tcs", lreq, od.coq(), ot.coq()), Nontrivial: q.Query != "", Tags: tags})
+	}
+}
